@@ -31,15 +31,20 @@ PROPS = {
 
 PROPS["C01"] = {
     "module": "PropC01",
-    "theorems": ["C01_sound", "C01_decodes", "C01_ascii_partial", "C01_ascii_refuted"],
-    "runs": [detect_run("C01", 260, 4000, bigq=2, bigt=12)],
+    "theorems": ["C01_sound", "C01_decodes", "C01_ascii_partial", "C01_ascii_refuted",
+                 "C01_decodes_single_byte_modelled", "C01_single_byte_decoding_is_bytewise"],
+    "model_targets": ["Model/Decode.vo"],
+    "runs": [detect_run("C01", 260, 4000, bigq=2, bigt=12),
+             {"level": "decode", "args_quick": ["--n", "600"], "args_thorough": ["--n", "20000"]}],
     "search": detect_search("C01"),
     "rule": "detection cases = fixed witnesses + corpus files + generated (corpus slices, texts re-encoded into any supported "
             "encoding, marks, declarations, ASCII with high bytes at random offsets incl. between the sampled chunks, tiny, binary, "
             "corrupted UTF-8, mixed scripts, inputs on both sides of 1,000,000 bytes) x random settings; each compared field by "
             "field with the extracted Coq model run on the same case with its oracles served by the real primitives, and checked "
             "against the codec crate's own strict decode; non-trivial = distinct cases with at least one match",
-    "assumptions": ["LazyContract (single-byte decoders are byte-wise) for inputs above TOO_BIG_SEQUENCE only",
+    "assumptions": ["LazyContract (single-byte decoders are byte-wise) for inputs above TOO_BIG_SEQUENCE only; discharged for decode oracles that are the "
+                    "table-decoder model (C01_decodes_single_byte_modelled; the decode level compares that model with the helper on the crate's 30 tables "
+                    "in strict / test-only / chunk mode and checks that no table contains U+FEFF)",
                     "known finding D1: the 'ascii' conjunct is refuted (C01_ascii_refuted); violations inside the known class are listed, not raised"],
     "trusted": ["Flocq axioms only in C01_ascii_refuted (witness evaluated on binary32): sig_forall_dec, sig_not_dec, functional_extensionality_dep, classic"],
 }
@@ -64,7 +69,8 @@ PROPS["C05"] = {
 
 PROPS["C07"] = {
     "module": "PropC07",
-    "theorems": ["C07_flag_truthful", "C07_text_after_mark", "C07_marks_prefix_free"],
+    "theorems": ["C07_flag_truthful", "C07_text_after_mark", "C07_marks_prefix_free", "C07_text_after_mark_single_byte_modelled"],
+    "model_targets": ["Model/Decode.vo"],
     "runs": [detect_run("C07", 300, 5000)],
     "search": detect_search("C07"),
     "rule": DETECT_RULE + "; focus C07: half of the cases get one of the four marks prepended (20% doubled) to an arbitrary body "
